@@ -20,10 +20,18 @@ def partition(rng, n):
     rng.shuffle(rs)
     return rs
 
+def sign_profile(rng, w):
+    """wire of a sparse matrix (nl nc nnz (i j v)*) with all stored values made non-positive / non-negative (sign-uniform
+    matrices: where a max/abs/scale slip in a norm or a pivot shows)"""
+    mode = rng.choice([-1, -1, 1])
+    w = list(w)
+    for k in range(5, len(w), 3): w[k] = mode * abs(w[k])
+    return w
+
 def gen_cases(rng, n, maxn):
     cases = []
     for _ in range(n):
-        op = rng.choice([1, 2, 2, 3, 3, 4, 5, 5, 6, 6, 7, 8, 9, 10, 11, 12, 12, 13, 14, 14, 20, 20, 20, 21, 22, 22, 23, 23])
+        op = rng.choice([1, 2, 2, 3, 3, 4, 5, 5, 6, 6, 7, 8, 9, 10, 10, 11, 12, 12, 13, 14, 14, 20, 20, 20, 21, 22, 22, 23, 23])
         nl, nc = gen.shape(rng, maxn), gen.shape(rng, maxn)
         w = [op]
         if op == 1:
@@ -44,7 +52,8 @@ def gen_cases(rng, n, maxn):
             if rng.random() < 0.85: w += gen.sparse(rng, nl, nc) + gen.sparse(rng, nl, nc)
             else: w += gen.sparse(rng, nl, nc) + gen.sparse(rng, nl + rng.choice([0, 1]), nc + 1)
         elif op in (7, 10, 11):
-            w += gen.sparse(rng, nl, nc)
+            sp = gen.sparse(rng, nl, nc)
+            w += sign_profile(rng, sp) if rng.random() < 0.35 else sp
         elif op == 8:
             w += gen.sparse(rng, nl, nc) + [rng.randint(0, nl + 1)]
         elif op == 9:
@@ -145,7 +154,7 @@ def main(replay=None):
                      dict(kind="correspondence", cases=[c], model=[m], impl=[i], replay_cmd="./check C14 --replay <this file>"))
     errs = sum(1 for m in mo if m.split()[0] in ("1", "2") or " 2 0" in m or " 4 0" in m)
     ck.cov.update(evaluations=len(cases), distinct_nontrivial=len(nontriv),
-                  rule="random container cases (shapes 0..%d biased to 0/1/2, densities {0,.05,.2,.5,1}, duplicate keys, stored zeros, ~15%% non-conformable operands; range sequences aimed at touching/containing ranges); non-trivial = more than 5 integers of payload; distinct = distinct case lines" % (7 if quick else 40),
+                  rule="random container cases (shapes 0..%d biased to 0/1/2, densities {0,.05,.2,.5,1}, duplicate keys, stored zeros, sign-uniform (all <=0 / all >=0) matrices for norm/transpose/to_dense, ~15%% non-conformable operands; range sequences aimed at touching/containing ranges); non-trivial = more than 5 integers of payload; distinct = distinct case lines" % (7 if quick else 40),
                   samples=cases[len(cases) // 2:len(cases) // 2 + 3], op_distribution=dist, error_outcomes=errs,
                   correspondence_mismatches=len(mism), traces_validated_against_impl=len(cases))
     ck.cov["trusted_base"] += ["hand-written Gallina model coq/Maths/{SparseModel,Ranges}.v tied by exact differential runs (harness/h_c14.cpp vs extracted extract/omm)",
